@@ -236,7 +236,8 @@ class Executor:
               "val": "none", "keys": [], "haspre": False, "ret": "none",
               "expect": "none", "retok": True, "rater": "none",
               "streq": False, "badval": False, "via": "fresh",
-              "kwvals": {}, "orphan": False, "rxhi": "none", "tree": False, "pseudo": False,
+              "kwvals": {}, "orphan": False, "rxhi": "none",
+              "binfail": False, "contnan": False, "tree": False, "pseudo": False,
               "retnum": {"m1": False, "zero": False, "inrange": False,
                          "finite": False}}
         pre = self.events[-1]["post"] if self.events else self.init_state
@@ -460,6 +461,21 @@ class Executor:
             exp = self.oracle.rate(self.cid, self.stored_pipeline(),
                                    self.stored_settings(), rargs)
             ev["expect"] = exp if isinstance(exp, str) else "raise"
+        # what the rating has to be combined from: the binary exclusion
+        # criteria and the continuous features of THIS object (public
+        # feature API, same feature selection as the rater)
+        if not ev["pseudo"]:
+            from nanite.rate.rater import IndentationRater
+            try:
+                bf = IndentationRater.compute_features(
+                    self.idnt, which_type="binary", names=rargs["names"])
+                cf = IndentationRater.compute_features(
+                    self.idnt, which_type="continuous", names=rargs["names"])
+                ev["binfail"] = bool(np.sum(np.asarray(bf) == 0))
+                ev["contnan"] = bool(np.any(np.isnan(cf)))
+            except BaseException as exc:
+                if isinstance(exc, (KeyboardInterrupt, SystemExit)):
+                    raise
         self.counter.n = 0     # the oracle above may have fitted
         val = self.idnt.rate_quality(**call)
         ev["ret"] = orc.fhex(val)
